@@ -3,7 +3,7 @@
    string type stays the extracted inductive.  No Extract Constant. *)
 From Coq Require Import Extraction ExtrOcamlBasic.
 Require Import CGT.Model.Num CGT.Model.Date CGT.Model.Ledger CGT.Model.Match CGT.Model.Agg
-               CGT.Model.Report CGT.Model.Config CGT.Model.Dsl CGT.Model.Json CGT.Model.Cli CGT.Model.Mcp CGT.Model.McpTools CGT.Model.Fmt CGT.Model.Schwab CGT.Model.Fx CGT.Model.Validate.
+               CGT.Model.Report CGT.Model.Config CGT.Model.Dsl CGT.Model.Json CGT.Model.Cli CGT.Model.Mcp CGT.Model.McpTools CGT.Model.Fmt CGT.Model.Schwab CGT.Model.Fx CGT.Model.Pipeline CGT.Model.Validate.
 Extraction Language OCaml.
 Extraction "model.ml" P0 report_of y_taxable y_count days_of_civil civil_of_days valid_date
   tax_year_of_days in_range round_half_away round_half_even days_of_tick run d_gain d_cost
@@ -13,5 +13,5 @@ Extraction "model.ml" P0 report_of y_taxable y_count days_of_civil civil_of_days
   McpTools.parse_input McpTools.calculate_tool McpTools.explain_tool McpTools.trim
   Fmt.format_gbp Fmt.read_pence Fmt.trim_decimal Fmt.format_date Fmt.format_tax_year Fmt.json_money
   Schwab.convert lookback0 Schwab.get_fmv Schwab.build_awards Schwab.parse_amount Schwab.parse_schwab_date
-  Fx.ledger_to_gbp Fx.load_with_overrides Fx.lookup
+  Fx.ledger_to_gbp Fx.load_with_overrides Fx.lookup Pipeline.pipeline
   Validate.error_lines Validate.has_errors.
